@@ -14,6 +14,8 @@ Lemma call_eqb_refl c : call_eqb c c = true.
 Proof. destruct c as [[[i s] d] v]. cbn [call_eqb]. now rewrite Nat.eqb_refl, !str_eqb_refl, same_dict_refl. Qed.
 Lemma ostr_eqb_refl o : ostr_eqb o o = true.
 Proof. destruct o; cbn [ostr_eqb]; [apply str_eqb_refl | reflexivity]. Qed.
+Lemma fres_eqb_refl r : fres_eqb r r = true.
+Proof. destruct r as [o|e]; cbn [fres_eqb]; [apply ostr_eqb_refl | apply exc_eqb_refl]. Qed.
 Lemma list_eqb_refl' {A} (eq : A -> A -> bool) l : (forall x, eq x x = true) -> list_eqb eq l l = true.
 Proof. intros Hr. apply list_eqb_refl. apply Forall_forall. auto. Qed.
 
@@ -47,14 +49,30 @@ Proof.
     rewrite X. reflexivity.
 Qed.
 
+Lemma holds_chain_model ml ms ht srcs sys pd pv fk fv :
+  let ss := map mk_source srcs in
+  holds_chain ml ms ht srcs sys pd pv fk fv
+    (fst (comp_get (table_H ht) ml ms 0 ss sys pd pv)) (snd (comp_get (table_H ht) ml ms 0 ss sys pd pv))
+    (fst (comp_find 0 ss fk fv)) (snd (comp_find 0 ss fk fv)) = [].
+Proof.
+  intros ss. subst ss. rewrite comp_get_fold, comp_find_spec.
+  destruct (find_spec 0 (map mk_source srcs) fk fv) as [sl sr] eqn:Ef.
+  unfold holds_chain. rewrite Ef. cbn [fst snd].
+  rewrite gres_eqb_refl, (list_eqb_refl' call_eqb) by apply call_eqb_refl.
+  rewrite (list_eqb_refl' Nat.eqb) by apply Nat.eqb_refl. now rewrite fres_eqb_refl.
+Qed.
+
 Lemma holds_model c : valid c -> holds c (run_model c) = [].
 Proof.
-  destruct c as [ml ms a b | ml ms ht srcs sys pd pv fk fv | ml ms a b c']; cbn [valid run_model].
+  destruct c as [ml ms a b | ml ms ht srcs sys pd pv fk fv | ml ms a b c' | ml ms ht steps]; cbn [valid run_model].
   - intros [Wa Wb]. cbn [holds]. now apply holds_merge_model.
-  - intros _. rewrite comp_get_fold, comp_find_spec.
-    destruct (find_spec 0 (map mk_source srcs) fk fv) as [sl sr] eqn:Ef.
-    cbn [holds]. unfold holds_chain. rewrite Ef.
-    rewrite gres_eqb_refl, (list_eqb_refl' call_eqb) by apply call_eqb_refl.
-    rewrite (list_eqb_refl' Nat.eqb) by apply Nat.eqb_refl. now rewrite ostr_eqb_refl.
+  - intros _. pose proof (holds_chain_model ml ms ht srcs sys pd pv fk fv) as G. cbn zeta in G.
+    destruct (comp_get (table_H ht) ml ms 0 (map mk_source srcs) sys pd pv) as [glog gres].
+    destruct (comp_find 0 (map mk_source srcs) fk fv) as [flog fres]. exact G.
   - intros E. cbn [holds]. unfold holds_assoc. now rewrite E.
+  - intros _. cbn [holds]. induction steps as [|st r IH]; cbn [map holds_hist]; [reflexivity|].
+    pose proof (holds_chain_model ml ms ht (st_srcs st) (st_sys st) (st_pd st) (st_pv st) (st_fk st) (st_fv st)) as G. cbn zeta in G.
+    destruct (comp_get (table_H ht) ml ms 0 (map mk_source (st_srcs st)) (st_sys st) (st_pd st) (st_pv st)) as [glog gres].
+    destruct (comp_find 0 (map mk_source (st_srcs st)) (st_fk st) (st_fv st)) as [flog fres].
+    cbn [fst snd] in G. now rewrite G, IH.
 Qed.
